@@ -352,13 +352,24 @@ theorem C05_terminates_recoveryScan_inner (s : IS) (c : Byte) (q : Bool) (len st
   | false => have := (h2 rfl).1; omega
   | true => have := h3 rfl; omega
 
-/-- `ReadComment`'s guarded loop is structurally bounded by the regenerated limit: at most `readCommentIters`
-(= MAX_COMMENT_LENGTH + 1) iterations whatever the input -/
+/-- `ReadComment`'s loop with the regenerated limit (`readCommentIters` = MAX_COMMENT_LENGTH + 1; the counter starts again
+while the stream is good, so a comment may have any length): it ends with fuel `|bytes| + readCommentIters + 3`, never
+un-reads, and makes at most one step per byte it consumes plus `readCommentIters` spins once the input has ended inside
+the comment -/
 theorem C05_terminates_readComment_loop (s : IS) (c : Byte) (len steps : Nat) :
-    (commentLoop C05.readCommentIters s c len steps).2.2.2.2 ≤ steps + C05.readCommentIters := by
-  generalize C05.readCommentIters = iters
-  fun_induction commentLoop iters s c len steps <;> simp_all <;> omega
-
+    ∃ o s' c' len' st',
+      commentLoop C05.readCommentIters (s.rest.length + C05.readCommentIters + 3) C05.readCommentIters s c len steps
+        = .ok (o, s', c', len', st') ∧ s'.m ≤ s.m ∧ st' ≤ steps + 4 * (s.rest.length + 1) + C05.readCommentIters := by
+  have hm : s.m ≤ s.rest.length + 1 := by unfold IS.m; split <;> omega
+  obtain ⟨o, s', c', l', st', he, h1, h2⟩ := commentLoop_pot C05.readCommentIters C05.readCommentIters (Nat.le_refl _)
+    (s.rest.length + C05.readCommentIters + 3) C05.readCommentIters s c len steps (Nat.le_refl _) (by split <;> omega)
+  refine ⟨o, s', c', l', st', he, h1, ?_⟩
+  have := pot_le (R := C05.readCommentIters) s
+  split at h2
+  · rename_i hz
+    rw [pot_zero hz] at h2
+    omega
+  · omega
 
 /-- `SkipInstance` (with the regenerated comment case and comment limit): fuel `|remaining bytes| + 2` is enough for
 every stream state; the stream never gets longer.  (Fuel bounds the iterations of the loop itself; iterations of the
